@@ -37,15 +37,16 @@ CLAIMED = {
             "every immediate / label value < 65536 and every flag setting; equality of whole states, except that "
             "SET/SETRF to R15 are compared up to hera-py's stack-overflow warning bookkeeping.",
             "trusted: as C01 plus Spec/PseudoSpec.v, Model/Bitvec.v (OPCODE)"),
-    "C04": ("PARTIAL proof. Proved in Coq over the hand model of checker.py (Model/Preproc.v) and the regenerated "
-            "operation_length / convert / P tables: for every operation class and every operand list that "
-            "type-checks, the number of instructions convert() emits equals checker.operation_length (the obligation "
-            "whose failure shifts every later label); relative label branches are accepted iff the distance is in "
-            "-128..127 and then carry it; every data statement advances the data counter by its cell count and a "
-            "data label gets the current counter. NOT yet a theorem: the whole-program layout statement (each label "
-            "= index of the next emitted instruction in every mode); it is decided by this check's differential "
-            "correspondence (model = real parse+check on generated programs in all four modes) plus an independent "
-            "oracle on the real output.",
+    "C04": ("PARTIAL proof (whole-program code layout now a theorem). Proved in Coq over the hand model of checker.py "
+            "(Model/Preproc.v) and the regenerated operation_length / convert / P tables: a program whose type-check reports "
+            "no error consists of individually clean operations; for every such operation the number of instructions "
+            "convert() emits equals checker.operation_length; over any program the program counter of get_labels and the "
+            "one of convert_ops stay in lockstep, the latter is the number of instructions emitted so far, hence every "
+            "label denotes the index of the next emitted instruction in every mode (debugging operations skipped by both "
+            "passes when stripped); relative label branches are accepted iff the distance is in -128..127 and then carry "
+            "it; each data statement advances the data counter by its cell count and a data label gets the current "
+            "counter. Not theorems: persistence of entries in the final symbol table and whole-program data-label layout; "
+            "decided by the differential correspondence (model = real parse+check in all four modes) and the layout oracle.",
             "trusted: Model/Preproc.v (hand model, differential), tools/translate tables"),
     "C15": ("PARTIAL proof. Coq theorems: reset() (regenerated from hera/vm.py) yields a state that depends only on "
             "the settings object, prior terminal output and the settings' warning counter, so a run is the same "
